@@ -58,6 +58,12 @@ package baseapp
 // unreachable: no GasMeter method decreases the meter, but the ante handler and the message handlers are opaque function
 // values here (they could hand back a context with another block gas meter)
 //@   may_exit
+// C11: code that belongs to the transaction (its messages' ValidateBasic, the ante handler, the message handler) runs only
+// after the recovering defer is in place: a panic there becomes an error result, it never escapes runTx (seed C11f)
+//@   under_recover validateBasicTxMsgs$
+//@   under_recover \.GetMsg$
+//@   under_recover runMsg$
+//@   under_recover func-value
 //@   ensures [noflush] mode != 2 ==> ms.cwrites == old(ms.cwrites)
 //@   ensures [deliver-flushes] old(ms.cwrites) <= ms.cwrites && ms.cwrites <= old(ms.cwrites) + 2
 
